@@ -1299,6 +1299,8 @@ class Normalizer:
             if isinstance(t, ast.UnaryOp) and isinstance(t.op, ast.Not):
                 t, neg = t.operand, True
             if not (isinstance(t, ast.Name) and t.id in self.temps):
+                if self._thread_none_test(fn, out, i):
+                    continue
                 i += 1
                 continue
             name = t.id
@@ -1310,7 +1312,7 @@ class Normalizer:
                 continue
             A, B = (s.orelse, s.body) if neg else (s.body, s.orelse)
             leaves = []
-            if not self._leaves(prev, name, leaves):
+            if not self._leaves(prev, name, leaves) or any(getattr(l, '_virtual_leaf', False) for l in leaves):
                 i += 1
                 continue
             nA = sum(1 for l in leaves if not (isinstance(l.value, ast.Constant) and l.value.value is False))
@@ -1336,6 +1338,82 @@ class Normalizer:
             self.stats['idioms'] += 1
         return out
 
+    _NEVER_NONE_CALLS = {'bytes.fromhex', 'bytes', 'bytearray', 'str', 'int', 'float', 'bool', 'list', 'dict', 'set', 'tuple', 'frozenset', 'len', 'repr', 'memoryview'}
+
+    def _none_ness(self, v):
+        """True: certainly None, False: certainly not None, None: unknown"""
+        if isinstance(v, ast.Constant):
+            return v.value is None
+        if isinstance(v, (ast.List, ast.Tuple, ast.Set, ast.Dict, ast.JoinedStr, ast.ListComp, ast.SetComp, ast.DictComp, ast.GeneratorExp, ast.Lambda)):
+            return False
+        if isinstance(v, ast.Call):
+            f = v.func
+            name = f.id if isinstance(f, ast.Name) else (f'{f.value.id}.{f.attr}' if isinstance(f, ast.Attribute) and isinstance(f.value, ast.Name) else None)
+            if name in self._NEVER_NONE_CALLS:
+                return False
+        return None
+
+    def _thread_none_test(self, fn, out, i) -> bool:
+        """`if c: v = None else: v = <not None>` followed by `if v is None: A [else: B]`: A / B move to the branches that
+        decide them (a value used as its own "skip" flag is the same control flow as an early exit)"""
+        s = out[i]
+        if not isinstance(s, ast.If) or i == 0:
+            return False
+        t = s.test
+        pol = None
+        if isinstance(t, ast.Compare) and len(t.ops) == 1 and isinstance(t.left, ast.Name) and isinstance(t.comparators[0], ast.Constant) and t.comparators[0].value is None and isinstance(t.ops[0], (ast.Is, ast.IsNot)):
+            pol = isinstance(t.ops[0], ast.Is)
+            name = t.left.id
+        else:
+            return False
+        prev = out[i - 1]
+        if not isinstance(prev, (ast.If, ast.Try)):
+            return False
+        leaves = []
+        if not self._leaves(prev, name, leaves) or not leaves:
+            return False
+        kinds = [self._none_ness(l.value) for l in leaves]
+        if any(k is None for k in kinds):
+            return False
+
+        def small(b):
+            return len(b) <= 3 and all(isinstance(x, (ast.Raise, ast.Continue, ast.Break, ast.Return, ast.Pass, ast.Expr, ast.Assign)) for x in b)
+
+        when_none, otherwise = (s.body, s.orelse) if pol else (s.orelse, s.body)
+        n_none = sum(1 for k in kinds if k)
+        n_other = len(kinds) - n_none
+        if (n_none > 1 and not small(when_none)) or (n_other > 1 and not small(otherwise)):
+            return False
+        # other assignments of the name inside prev that are not tail leaves would make this unsound
+        stores = [n for n in ast.walk(prev) if isinstance(n, ast.Name) and n.id == name and isinstance(n.ctx, ast.Store)]
+        if len(stores) != len(leaves):
+            return False
+        self._append_after_leaves(prev, name, when_none, otherwise)
+        del out[i]
+        self.stats['idioms'] += 1
+        return True
+
+    def _append_after_leaves(self, st, name, when_none, otherwise):
+        def handle(block):
+            last = block[-1]
+            if isinstance(last, ast.If) and not last.orelse and len(block) >= 2 and self._is_assign_of(block[-2], name) and last.body:
+                last.orelse = copy.deepcopy(when_none if self._none_ness(block[-2].value) else otherwise)
+                handle(last.body)
+            elif isinstance(last, ast.Assign) and len(last.targets) == 1 and isinstance(last.targets[0], ast.Name) and last.targets[0].id == name:
+                block.extend(copy.deepcopy(when_none if self._none_ness(last.value) else otherwise))
+            elif isinstance(last, (ast.If, ast.With, ast.AsyncWith, ast.Try)):
+                self._append_after_leaves(last, name, when_none, otherwise)
+
+        if isinstance(st, ast.If):
+            handle(st.body)
+            handle(st.orelse)
+        elif isinstance(st, (ast.With, ast.AsyncWith)):
+            handle(st.body)
+        elif isinstance(st, ast.Try):
+            handle(st.orelse if st.orelse else st.body)
+            for h in st.handlers:
+                handle(h.body)
+
     def _leaves(self, st, name, acc) -> bool:
         """collect the tail-position assignments of `name` in st; False if some falling path does not end in one"""
         if isinstance(st, ast.Assign):
@@ -1346,13 +1424,26 @@ class Normalizer:
         if isinstance(st, (ast.Raise, ast.Return, ast.Continue, ast.Break)):
             return True
         if isinstance(st, ast.If):
-            return bool(st.body) and bool(st.orelse) and self._leaves(st.body[-1], name, acc) and self._leaves(st.orelse[-1], name, acc)
+            return bool(st.body) and bool(st.orelse) and self._leaves_block(st.body, name, acc) and self._leaves_block(st.orelse, name, acc)
         if isinstance(st, (ast.With, ast.AsyncWith)):
-            return bool(st.body) and self._leaves(st.body[-1], name, acc)
+            return bool(st.body) and self._leaves_block(st.body, name, acc)
         if isinstance(st, ast.Try) and not st.finalbody:
-            main = st.orelse[-1] if st.orelse else (st.body[-1] if st.body else None)
-            return main is not None and self._leaves(main, name, acc) and all(h.body and self._leaves(h.body[-1], name, acc) for h in st.handlers)
+            main = st.orelse if st.orelse else st.body
+            return bool(main) and self._leaves_block(main, name, acc) and all(h.body and self._leaves_block(h.body, name, acc) for h in st.handlers)
         return False
+
+    @staticmethod
+    def _is_assign_of(st, name):
+        return isinstance(st, ast.Assign) and len(st.targets) == 1 and isinstance(st.targets[0], ast.Name) and st.targets[0].id == name
+
+    def _leaves_block(self, blk, name, acc) -> bool:
+        last = blk[-1]
+        # `v = e` followed by `if c: ...; v = None` (no else): the fall-through value is e
+        if isinstance(last, ast.If) and not last.orelse and len(blk) >= 2 and self._is_assign_of(blk[-2], name) and last.body:
+            blk[-2]._virtual_leaf = True
+            acc.append(blk[-2])
+            return self._leaves_block(last.body, name, acc)
+        return self._leaves(last, name, acc)
 
     def _replace_leaves(self, st, name, A, B):
         def repl(block):
@@ -1396,8 +1487,7 @@ class Normalizer:
                 ctx_names |= _all_names(cur.node)
                 cur = cur.owner
             d.node.body = self._xform_block(d.node.body, d, ctx_names) or [ast.Pass()]
-            if self.temps:
-                self._thread_blocks(d.node, d.node)
+            self._thread_blocks(d.node, d.node)
             self._dehoist(d, ctx_names)
             self._unpartial(d.node)
             self._scalarize(d)
@@ -1941,7 +2031,61 @@ class Normalizer:
                     changed = True
 
     # -------------------------------------------------------------------- run
+    def _class_index(self):
+        for rel, tree in self.trees.items():
+            self.classes.setdefault(rel, {})
+            for st in tree.body:
+                if isinstance(st, ast.ClassDef):
+                    self.classes[rel][st.name] = st
+
+    def _rehome_methods(self):
+        """a private method of the inventory that now exists as a module-level function of the same name (it never used
+        `self`) is a method again: definition moved back into the class, calls `f(..)` become `self.f(..)`"""
+        for rel, tree in self.trees.items():
+            inv = self.inv.get(rel)
+            if inv is None:
+                continue
+            known = set(inv['functions'])
+            for cname, cnode in list(self.classes.get(rel, {}).items()):
+                have = {st.name for st in cnode.body if isinstance(st, FuncNode)}
+                missing = {q.split('.', 1)[1] for q in known if q.startswith(cname + '.') and q.count('.') == 1} - have
+                cands = [st for st in tree.body if isinstance(st, FuncNode) and st.name in missing and st.name not in known]
+                if not cands:
+                    continue
+                names = {f.name for f in cands}
+                # every call site must be inside a method of this class (where `self` exists) or inside another moved function
+                ok = True
+                sites = []
+                for top in tree.body:
+                    holders = []
+                    if isinstance(top, ast.ClassDef) and top is cnode:
+                        holders = [(m, (m.args.posonlyargs + m.args.args)[0].arg if (m.args.posonlyargs + m.args.args) else None) for m in top.body if isinstance(m, FuncNode)]
+                    elif isinstance(top, FuncNode) and top in cands:
+                        holders = [(top, 'self')]
+                    elif any(isinstance(n, ast.Name) and n.id in names for n in ast.walk(top)) and not (isinstance(top, FuncNode) and top in cands):
+                        ok = False
+                    for h, selfname in holders:
+                        for n in ast.walk(h):
+                            if isinstance(n, ast.Name) and n.id in names and isinstance(n.ctx, ast.Load):
+                                if selfname is None or any(isinstance(d_, ast.Name) and d_.id == 'staticmethod' for d_ in h.decorator_list):
+                                    ok = False
+                                sites.append((h, n, selfname))
+                if not ok:
+                    continue
+                for h, n, selfname in sites:
+                    new = ast.copy_location(ast.Attribute(value=ast.copy_location(ast.Name(id=selfname, ctx=ast.Load()), n), attr=n.id, ctx=ast.Load()), n)
+                    self._replace_everywhere(h, n, new)
+                for f in cands:
+                    tree.body.remove(f)
+                    f.args.args.insert(0, ast.arg(arg='self'))
+                    cnode.body.append(f)
+                    self.stats['rehomed'] = self.stats.get('rehomed', 0) + 1
+                    self.log.append(f'{rel}: module-level {f.name} is taken to be the method {cname}.{f.name}')
+                ast.fix_missing_locations(tree)
+
     def run(self):
+        self._class_index()
+        self._rehome_methods()
         self._index()
         self._match_renames()
         self._constants()
